@@ -5,7 +5,7 @@ exit 0  property held on everything explored (known findings are printed, not co
 exit 1  + line 'VIOLATION property=<id> replay=<path>[ no-failing-input-found]'
 exit 2  the machinery itself failed (never a VIOLATION line)
 """
-import sys, os, json, time, argparse, importlib, traceback
+import os, sys, json, time, argparse, importlib, traceback
 from pathlib import Path
 sys.path.insert(0, str(Path(__file__).resolve().parent))
 import core
@@ -103,7 +103,22 @@ def do_check(ctx, mod, no_build=False):
             obligations.append({'name': t, 'kind': 'theorem', 'ok': bool(no_build)})
 
     # 4+5. correspondence and oracle
-    res = mod.run(ctx)
+    try:
+        res = mod.run(ctx)
+    except Exception as e:
+        # An exception that escapes run() is a failure of the machinery (exit 2) - unless it was raised INSIDE the code under
+        # test, at a place where the harness did not expect that code to raise: then the tie between model and code is what
+        # broke (the run could not be completed against this tree), which is handled like any other broken tie: failing-input
+        # search with the oracle alone, and a violation naming the exception if the search finds nothing.
+        frames = [f for f in traceback.extract_tb(e.__traceback__) if str(f.filename).startswith(str(core.REPO) + os.sep)]
+        if not frames:
+            raise
+        last = frames[-1]
+        ctx.broken.append('run() aborted: %s raised inside the code under test at %s:%d in %s (%s)' % (
+            type(e).__name__, os.path.basename(last.filename), last.lineno, last.name, str(e)[:120]))
+        ctx.notes.append(traceback.format_exc()[-1500:])
+        res = core.Result()
+        res.rule = 'run aborted by an exception of the code under test; see notes'
     for name, f in res.facets.items():
         bad = f.get('disagreements', 0)
         obligations.append({'name': 'correspondence facet %s' % name, 'kind': 'correspondence',
